@@ -47,6 +47,7 @@ fn run_session(text: &str, tree: &J, binds: &J, exprs: &[String], qs: &[usize]) 
     let mut steps = vec![];
     for &q in qs {
         let expr = &exprs[q - 1];
+        heartbeat(|| json!({"k": "crash", "expr": string_to_cps(expr), "text": string_to_cps(text)}).to_string());
         let obs = match guarded(|| match xml_xpath::query(doc.dom.clone(), expr, &mut ctx) {
             Ok(v) => value_json(&doc, &v),
             Err(e) => json!({"t": "err", "msg": e.to_string()}),
